@@ -25,7 +25,7 @@ Import ListNotations.
 
 IMPORTS = ("Scalar Outcome Support Poly Spline Ops Forms Generator Interp Spec Spec_Ops Spec_Gen "
            "Proofs_Support Proofs_Scalar Proofs_Poly Proofs_Binom Proofs_Eval Proofs_Outcome Proofs_Spline "
-           "Proofs_Forms Proofs_Ops Proofs_Forms2 Proofs_Interp Proofs_Pred Proofs_Gen")
+           "Proofs_Forms Proofs_Ops Proofs_Forms2 Proofs_Interp Proofs_Pred Proofs_Gen Instances Instances_Ext Proofs_Valid")
 
 TABLE = {
     "C02": ("evaluation returns the value of the stored piecewise polynomial", """
@@ -150,6 +150,36 @@ TABLE = {
         ("C01_constructor", "Proofs_Gen.gen_ctor1_iff"),
         ("C01_grid_is_unique_knots", "Proofs_Gen.gen_ctor1_ok"),
     ]),
+    "C11": ("malformed input is rejected at the boundary with the library's exception", """
+   One characterisation per validating entry point: accepted iff valid, and every refusal is
+   Throw <library code> (never BadOptionalAccess, StdOutOfRange or UB).  The grid theorems need
+   no order law, so they hold for the IEEE comparison structure ext (NaN, +-inf) as well.""", [
+        ("C11_grid_iff", "Proofs_Eval.grid_ctor_iff"),
+        ("C11_grid_outcomes", "Proofs_Eval.grid_ctor_cases"),
+        ("C11_grid_too_short", "Proofs_Eval.grid_ctor_missing"),
+        ("C11_grid_not_increasing", "Proofs_Eval.grid_ctor_inconsistent"),
+        ("C11_grid_nan", "Proofs_Valid.grid_ctor_nan"),
+        ("C11_grid_nan_inconsistent", "Proofs_Valid.grid_ctor_nan_long"),
+        ("C11_support_accepted", "Proofs_Support.sup_ctor_ok"),
+        ("C11_support_refused", "Proofs_Support.sup_ctor_throw"),
+        ("C11_spline_accepted", "Proofs_Spline.spl_ctor_ok"),
+        ("C11_spline_refused", "Proofs_Spline.spl_ctor_throw"),
+        ("C11_generator_iff", "Proofs_Gen.gen_ctor1_iff"),
+        ("C11_generator_constant", "Proofs_Gen.gen_ctor1_constant"),
+        ("C11_generator_descent", "Proofs_Gen.gen_ctor1_descent"),
+        ("C11_generator_grid_mismatch", "Proofs_Gen.gen_ctor2_mismatch"),
+        ("C11_generator_grid_match", "Proofs_Gen.gen_ctor2_ok"),
+        ("C11_generate_too_few", "Proofs_Gen.gen_too_few"),
+        ("C11_generate_valid", "Proofs_Gen.gen_count"),
+        ("C11_lincomb_count", "Proofs_Spline.lin_comb_count"),
+        ("C11_lincomb_empty", "Proofs_Spline.lin_comb_empty"),
+        ("C11_lincomb_differing", "Proofs_Spline.lin_comb_differing"),
+        ("C11_lincomb_valid", "Proofs_Spline.lin_comb_spec"),
+        ("C11_interp_count", "Proofs_Interp.interp_system_count"),
+        ("C11_interp_few", "Proofs_Interp.interp_system_few"),
+        ("C11_interp_bad_derivative", "Proofs_Interp.interp_system_bad_deriv"),
+        ("C11_interp_valid", "Proofs_Interp.interp_system_ok"),
+    ]),
     "C15": ("predicates tell the truth", "", [
         ("C15_is_zero", "Proofs_Pred.is_zero_spec"),
         ("C15_is_zero_coefficients", "Proofs_Pred.is_zero_coeffs"),
@@ -172,6 +202,7 @@ def coq_types(names):
            f"From BSpl Require Import {IMPORTS}.", "Import ListNotations.", "Set Printing Width 110.",
            "Set Printing Depth 1000."]
     for n in names:
+        src.append('Goal True. idtac "=====MARK". Abort.')
         src.append(f'Check @{n}.')
     p = "/var/tmp/mkprops_q.v"
     open(p, "w").write("\n".join(src) + "\n")
@@ -181,7 +212,7 @@ def coq_types(names):
             os.remove(p[:-2] + ext)
         except OSError:
             pass
-    blocks = re.split(r"^@", out, flags=re.M)[1:]
+    blocks = [b.strip().lstrip("@") for b in out.split("=====MARK")[1:]]
     types = {}
     assert len(blocks) == len(names), out[-3000:]
     for n, b in zip(names, blocks):
